@@ -22,7 +22,7 @@ KANI_MODULES = {
     'parser': dict(src='src/yaml/chunker/parser.rs', file='parser.rs', modpath='yaml::chunker::parser'),
     'chunker': dict(src='src/yaml/chunker.rs', file='chunker.rs', modpath='yaml::chunker', requires=['parser']),  # uses parser::verif_kani's scripted libyaml
     'stream': dict(src='src/transcode/stream.rs', file='stream.rs', modpath='transcode::stream'),
-    'yaml': dict(src='src/yaml.rs', file='yaml.rs', modpath='yaml'),
+    'yaml': dict(src='src/yaml.rs', file='yaml.rs', modpath='yaml', requires=['encoding']),  # stub_verified(Encoding::detect) needs the contract + Arbitrary impl
     'value': dict(src='src/transcode/value.rs', file='value.rs', modpath='transcode::value'),
     'toml': dict(src='src/toml.rs', file='toml.rs', modpath='toml'),
     'json': dict(src='src/json.rs', file='json.rs', modpath='json'),
@@ -32,6 +32,8 @@ KANI_MODULES = {
 }
 
 ATTR_INSERTS = {
+    'encoding': [dict(src='src/yaml/encoding.rs', fn='detect', within_impl=r'\bimpl\s+Encoding\s*\{',
+                      text='#[cfg_attr(kani, kani::ensures(|r: &Encoding| verif_kani::enc_code(r) == verif_kani::spec_detect(prefix)))]')],
     # module -> list of contract-attribute insertions on real functions (add-only, cfg_attr(kani))
 }
 
@@ -95,6 +97,11 @@ HARNESSES = [
     # ---- U-ENC ----
     H('U-ENC-D', 'encoding', 'enc_detect_matches_yaml_spec', 'complete', ['C07', 'C02', 'C09'], bounds='every prefix of length 0..=8',
       fns=['yaml::encoding::Encoding::detect'], timeout=300, min_covers=5),
+    H('U-ENC-D', 'encoding', 'detect_function_contract', 'contract', ['C07'], bounds='every prefix of length 0..=6; Kani function contract (proof_for_contract)',
+      fns=['yaml::encoding::Encoding::detect'], timeout=900),
+    H('U-YML', 'yaml', 'yaml_slice_fast_path_modular', 'contract', ['C07', 'C02'], bounds='every slice of length 0..=4; Encoding::detect replaced by its verified contract (stub_verified)',
+      fns=['yaml::transcode'], timeout=900,
+      assumes=['serde_yaml::Deserializer::from_str precondition-contract', 'transcode_reader stubbed']),
     H('U-ENC-16', 'encoding', 'utf16_next_step', 'complete', ['C07', 'C17', 'C04', 'C05'], bounds='every pending/next unit pair, both endiannesses, 0..=7 remaining bytes; any decoder state',
       fns=['yaml::encoding::Utf16Decoder::next', 'yaml::encoding::Utf16Decoder::next_u16', 'yaml::encoding::Endianness::decode_u16'], timeout=600, min_covers=7,
       assumes=['Utf16Decoder.pos < 2^64-16 bytes']),
@@ -403,7 +410,7 @@ def verus_units_for(pid, tier):
 
 def attr_inserts_for(modules):
     out = []
-    for m in modules:
+    for m in modules_closure(list(modules)):
         out += ATTR_INSERTS.get(m, [])
     return out
 
